@@ -16,6 +16,7 @@ import (
 	"encoding/binary"
 	"errors"
 	"fmt"
+	"io"
 	"sort"
 	"sync"
 	"testing"
@@ -29,6 +30,7 @@ import (
 	nullmetrics "github.com/attestantio/vouch/services/metrics/null"
 	"github.com/google/uuid"
 	"github.com/rs/zerolog"
+	zerologger "github.com/rs/zerolog/log"
 	e2types "github.com/wealdtech/go-eth2-types/v2"
 	e2wtypes "github.com/wealdtech/go-eth2-wallet-types/v2"
 	"pgregory.net/rapid"
@@ -92,8 +94,10 @@ type Case struct {
 	Provider string `json:"provider"`
 	NodesN   int    `json:"nodes_n"`
 	// Pool: the account manager holds accounts for validators 0..Pool-1 (and any other validator of the history).
-	Pool int  `json:"pool,omitempty"`
-	Ops  []Op `json:"ops"`
+	Pool int `json:"pool,omitempty"`
+	// LogLevel of the attester service and the strategy: "" (disabled) | "info" | "debug" | "trace".
+	LogLevel string `json:"log_level,omitempty"`
+	Ops      []Op   `json:"ops"`
 }
 
 // ---------------------------------------------------------------------------
@@ -487,6 +491,37 @@ func (s specProvider) Spec(context.Context, *api.SpecOpts) (*api.Response[map[st
 }
 
 // ---------------------------------------------------------------------------
+// Logging: vouch's services take their logger from the zerolog global logger;
+// it writes to io.Discard in this process, and the level is drawn per case so
+// that code inside "if e := log.Trace(); e.Enabled()" guards really executes.
+
+func init() { zerologger.Logger = zerolog.New(io.Discard) }
+
+func levelOf(s string) zerolog.Level {
+	switch s {
+	case "trace":
+		return zerolog.TraceLevel
+	case "debug":
+		return zerolog.DebugLevel
+	case "info":
+		return zerolog.InfoLevel
+	}
+	return zerolog.Disabled
+}
+
+// useLogLevel sets zerolog's global level for the case (cases of one process run
+// one after the other) and returns the level for WithLogLevel and a restore func.
+func useLogLevel(s string) (zerolog.Level, func()) {
+	lvl := levelOf(s)
+	zerolog.SetGlobalLevel(lvl)
+	return lvl, func() { zerolog.SetGlobalLevel(zerolog.Disabled) }
+}
+
+func genLogLevel(t *rapid.T) string {
+	return rapid.SampledFrom([]string{"", "", "info", "debug", "trace", "trace"}).Draw(t, "logLevel")
+}
+
+// ---------------------------------------------------------------------------
 // Generator
 
 type genState struct {
@@ -737,6 +772,7 @@ func genCase(t *rapid.T, provider string) Case {
 		}
 		c.Ops = append(c.Ops, op)
 	}
+	c.LogLevel = genLogLevel(t)
 	return c
 }
 
@@ -791,7 +827,8 @@ func validCase(c *Case) error {
 }
 
 func runCase(c *Case) (*observation, error) {
-	zerolog.SetGlobalLevel(zerolog.Disabled)
+	lvl, restoreLog := useLogLevel(c.LogLevel)
+	defer restoreLog()
 	if err := validCase(c); err != nil {
 		return nil, err
 	}
@@ -809,7 +846,7 @@ func runCase(c *Case) (*observation, error) {
 		return nil, err
 	}
 	svc, err := standardattester.New(ctx,
-		standardattester.WithLogLevel(zerolog.Disabled),
+		standardattester.WithLogLevel(lvl),
 		standardattester.WithProcessConcurrency(2),
 		standardattester.WithMonitor(nullmetrics.New()),
 		standardattester.WithChainTime(clock),
@@ -1183,7 +1220,7 @@ func check(t ev.TB, c *Case) {
 	}
 	js, st := judge(c, obs)
 	nontrivial := st.redeliveredAttested || st.overlap || st.retryAfterFault || st.refused
-	labels := []string{"provider-" + providerName(c)}
+	labels := []string{"provider-" + providerName(c), "log-level-" + levelOf(c.LogLevel).String()}
 	if st.redeliveredAttested {
 		labels = append(labels, "redelivery-of-attested-validator")
 	}
